@@ -135,7 +135,10 @@ func vpC11Grace(maxN int) {
 		}
 		k := 0
 		if i > 0 {
-			k = vpChoose("kind", 2)
+			k = vpChoose("kind", 2) // disconnect or reconnect
+			if i == n-1 && k == 1 && vpChoose("closed-instead", 2) == 1 {
+				k = 2 // the last notification is "closed": the client gave up, no reconnect will follow
+			}
 		}
 		s.notify(k)
 	}
